@@ -14,8 +14,10 @@ def own_facet(plan, rec):
     return f in plan.get("own", plan["facets"].split(","))
 
 
-COMPARED_KEY = {"res.lexer": "res.status", "res.autostyle": "res.status", "res.solo": "res.unequal", "res.decor": "res.err",
-                "res.setprop": "res.err", "out.all": "res.all"}
+COMPARED_KEY = {"res.lexer": "res.xmlok", "res.autostyle": "res.status", "res.solo": "res.unequal", "res.decor": "res.err",
+                "res.setprop": "res.err", "out.all": "res.all", "out.errtext": "res.status",
+                # the parsed form of each format's output, which the format's relation is evaluated on
+                "out.text": "res.lines", "out.csv": "res.bytes", "out.html": "res.toks", "out.json": "res.json", "out.md": "res.md"}
 
 
 def compared_key(facet):
